@@ -660,7 +660,7 @@ class Extractor:
                     depth -= 1
                 elif c == '>' and text[i - 1] != '-':
                     depth -= 1
-                elif c == '-' and text[i + 1] == '>' and depth == 0:
+                elif c == '-' and text[i + 1] == '>' and depth == 0 and arrow is None:
                     arrow = i + 2
             i += 1
         if arrow is None:
